@@ -236,19 +236,19 @@ fn encode_seqnum(seqnum: usize, writer: &mut BitWriter<impl AsMut<Vec<u8>>>) {
     }
     match seqnum {
         1..=127 => writer.write_bits(seqnum as u32, 8),
-        128..=0x7FFF => {
+        128..=0x7EFF => {
             let upper = ((seqnum >> 8) | 0x80) as u8;
             let lower = seqnum as u8;
             writer.write_bits(upper, 8);
             writer.write_bits(lower, 8);
         }
-        0x8000..=UPPER_LIMIT => {
+        0x7F00..=UPPER_LIMIT => {
             let encode = seqnum - 0x7F00;
             let upper = (encode >> 8) as u8;
             let lower = encode as u8;
             writer.write_bits(255u8, 8);
-            writer.write_bits(upper, 8);
             writer.write_bits(lower, 8);
+            writer.write_bits(upper, 8);
         }
         _ => unreachable!(),
     }
